@@ -468,9 +468,35 @@ class Doc:
         return s
 
     # -- application -------------------------------------------------------------------------------------------
+    def dup_mut_faults(self):
+        """Compound faults: a top-level element that carries an id is duplicated and ONE of the two copies gets a reference fault
+        (href / typeRef retargeting). Two elements with one id and different references: whichever of "first wins" and "last wins"
+        a consumer applies, another consumer of the same id may apply the other."""
+        tops = [e for e in self.elements if e.parent is not None and e.parent.parent is None and e.attr("id") is not None]
+        inner = [f for f in self.faults() if (self.fault_class(f).startswith("href-") or self.fault_class(f).startswith("typeref")) and "n" in f]
+        for e in tops:
+            for f in inner:
+                x = self.elements[f["n"]]
+                if e.start <= x.start and x.end <= e.end:
+                    for which in ("first", "second"):
+                        yield {"op": "dup-mut", "cls": "dup-mut:" + self.fault_class(f).split(":")[0], "n": e.idx, "inner": f, "which": which}
+
     def splices(self, f):
         t = self.text
         op = f["op"]
+        if op == "dup-mut":
+            e = self.elements[f["n"]]
+            seg = t[e.start:e.end]
+            out, pos = [], e.start
+            for a, b, r in sorted(s for s in self.splices(f["inner"]) if e.start <= s[0] and s[1] <= e.end):
+                if a < pos:
+                    continue
+                out.append(t[pos:a])
+                out.append(r)
+                pos = b
+            out.append(t[pos:e.end])
+            mut = "".join(out)
+            return [(e.start, e.end, (mut + seg) if f["which"] == "first" else (seg + mut))]
         if op in ("tx-delete", "tx-dict"):
             x = self.texts[f["t"]]
             if op == "tx-delete":
